@@ -3,6 +3,7 @@
   enumeration, is an instance of the rule (`wly_inst`), and every instance is such a day and time (`wly_inst_conv`).
 -/
 import Echse.Lemmas.RrWlyRfc5
+import Echse.Lemmas.RrRfcBase6
 namespace Echse.Lemmas.RrRfc
 open Echse.Rrule Echse.Instant Echse.Spec.RrOk Echse.Spec.Cal Echse.Spec.RuleExt Echse.Spec.Rfc
 open Echse.Lemmas.RrOkBase
@@ -36,29 +37,23 @@ theorem wly_base {r : Rule} {p : Inst} {y0 m0 d0 : Nat} (hy2 : p.y ≤ 2099) (hv
   · rename_i c; rw [if_pos c] at h; omega
   · rename_i c; rw [if_neg c] at h; omega
 
-/-- what the week loop looks at is an instance of the rule -/
-theorem wly_inst (r : Rule) (p : Inst) (nti : Nat) (hr : WfRule r) (hp : WfInst p) (hs : SeedOk r p)
-    (hy2 : p.y ≤ 2099) {y0 m0 d0 : Nat} (hv0 : VD y0 m0 d0) (hl0 : LowOk y0 m0)
-    (hback : Carry y0 m0 (d0 + wlyBack r p) p.y p.m p.d)
+/-- the week and the weekday of a day the week loop looks at (up to January 2100) -/
+theorem wly_days (r : Rule) (p : Inst) (nti : Nat) (hy2 : p.y ≤ 2099) {y0 m0 d0 : Nat} (hv0 : VD y0 m0 d0)
+    (hl0 : LowOk y0 m0) (hback : Carry y0 m0 (d0 + wlyBack r p) p.y p.m p.d)
     (j o ty tm td : Nat) (ho : o ∈ offs 8 (wlyIncs r) 0)
-    (hc : Carry y0 m0 (d0 + j * wk (mkCtx r p nti (wlyIncs r)) + o) ty tm td) (hty : ty ≤ 2099)
-    (hbit : bit (monMask r.mon) tm = true) (t : Tix) (ht : t ∈ (makeEnum p r).timesIx) :
-    WeeklyInst r p ⟨ty, tm, td, t.2.1, t.2.2.1, t.2.2.2, p.ms⟩ := by
+    (hc : Carry y0 m0 (d0 + j * wk (mkCtx r p nti (wlyIncs r)) + o) ty tm td) (hty : ty * 12 + tm ≤ 25201) :
+    weekStart (days ty tm td) = weekStart (dayOf p) + 7 * (j : Int) * (r.inter : Int) ∧
+    (if plainDays r = [] then wdayOf (days ty tm td) = wdayOf (dayOf p) else (wdayOf (days ty tm td) : Int) ∈ plainDays r) ∧
+    days ty tm td = days y0 m0 1 + d0 - 1 + 7 * ((j : Int) * (r.inter : Int)) + (o : Nat) := by
   have hd0 := hv0.2.2.1
   have hbase := wly_base hy2 hv0 hl0 hback
   have hD : 1 ≤ d0 + j * wk (mkCtx r p nti (wlyIncs r)) + o := by omega
-  have hdays := carry_days hc hv0.1 hv0.2.1 hD hl0 hty
-  obtain ⟨hv, -, -, -⟩ := hc.props hv0.1 hv0.2.1 hD
-  have hnd := ndom_eq hv.1 hv.2.1 (lowOk_carry hc hv0.1 hv0.2.1 hD hl0) hty
-  obtain ⟨m1, m2, m3⟩ := mem_timesIx ht
-  obtain ⟨hk, hte⟩ := exp_of_enum (x := ⟨ty, tm, td, t.2.1, t.2.2.1, t.2.2.2, p.ms⟩) hr hp hs m1 m2 m3
-  have hmon := (monMask_bit r.mon hr.mon.2 tm hv.1 hv.2.1).1 hbit
+  have hdays := carry_days' hc hv0.1 hv0.2.1 hD hl0 hty
   have hcast := wk_cast r p nti (wlyIncs r) j
   rw [Int.natCast_add, Int.natCast_add, hcast] at hdays
   have ho' := (wly_offs r o).1 ho
-  refine ⟨⟨hv.1, hv.2.1, hv.2.2.1, by rw [← hnd]; exact hv.2.2.2, rfl, hk⟩, ⟨j, ?_⟩, ?_, hmon, hte⟩
-  · show weekStart (days ty tm td) = weekStart (dayOf p) + 7 * (j : Int) * (r.inter : Int)
-    rw [Int.mul_assoc]
+  refine ⟨?_, ?_, by omega⟩
+  · rw [Int.mul_assoc]
     by_cases c : plainDays r = []
     · rw [if_pos c] at hbase ho'
       subst ho'
@@ -67,8 +62,7 @@ theorem wly_inst (r : Rule) (p : Inst) (nti : Nat) (hr : WfRule r) (hp : WfInst 
     · rw [if_neg c] at hbase ho'
       have e : days ty tm td = weekStart (dayOf p) + 7 * ((j : Int) * (r.inter : Int)) + (o : Nat) := by omega
       rw [e]; exact (week_off _ _ o ho'.1).2
-  · show if plainDays r = [] then wdayOf (days ty tm td) = wdayOf (dayOf p) else (wdayOf (days ty tm td) : Int) ∈ plainDays r
-    by_cases c : plainDays r = []
+  · by_cases c : plainDays r = []
     · rw [if_pos c] at hbase ho' ⊢
       subst ho'
       have e : days ty tm td = dayOf p + 7 * ((j : Int) * (r.inter : Int)) := by omega
@@ -77,23 +71,44 @@ theorem wly_inst (r : Rule) (p : Inst) (nti : Nat) (hr : WfRule r) (hp : WfInst 
       have e : days ty tm td = weekStart (dayOf p) + 7 * ((j : Int) * (r.inter : Int)) + (o : Nat) := by omega
       rw [e, (week_off _ _ o ho'.1).1]; exact ho'.2
 
+/-- what the week loop looks at is an instance of the rule -/
+theorem wly_inst (r : Rule) (p : Inst) (nti : Nat) (hr : WfRule r) (hp : WfInst p) (hs : SeedOk r p)
+    (hy2 : p.y ≤ 2099) {y0 m0 d0 : Nat} (hv0 : VD y0 m0 d0) (hl0 : LowOk y0 m0)
+    (hback : Carry y0 m0 (d0 + wlyBack r p) p.y p.m p.d)
+    (j o ty tm td : Nat) (ho : o ∈ offs 8 (wlyIncs r) 0)
+    (hc : Carry y0 m0 (d0 + j * wk (mkCtx r p nti (wlyIncs r)) + o) ty tm td) (hty : ty * 12 + tm ≤ 25201)
+    (hbit : bit (monMask r.mon) tm = true) (t : Tix) (ht : t ∈ (makeEnum p r).timesIx) :
+    WeeklyInst r p ⟨ty, tm, td, t.2.1, t.2.2.1, t.2.2.2, p.ms⟩ := by
+  have hd0 := hv0.2.2.1
+  have hD : 1 ≤ d0 + j * wk (mkCtx r p nti (wlyIncs r)) + o := by omega
+  obtain ⟨hv, -, -, -⟩ := hc.props hv0.1 hv0.2.1 hD
+  have hnd := ndom_eq' hv.1 hv.2.1 (lowOk_carry hc hv0.1 hv0.2.1 hD hl0) hty
+  obtain ⟨m1, m2, m3⟩ := mem_timesIx ht
+  obtain ⟨hk, hte⟩ := exp_of_enum (x := ⟨ty, tm, td, t.2.1, t.2.2.1, t.2.2.2, p.ms⟩) hr hp hs m1 m2 m3
+  have hmon := (monMask_bit r.mon hr.mon.2 tm hv.1 hv.2.1).1 hbit
+  obtain ⟨w1, w2, -⟩ := wly_days r p nti hy2 hv0 hl0 hback j o ty tm td ho hc hty
+  exact ⟨⟨hv.1, hv.2.1, hv.2.2.1, by rw [← hnd]; exact hv.2.2.2, rfl, hk⟩, ⟨j, w1⟩, w2, hmon, hte⟩
+
 theorem week_split (n : Int) : n = weekStart n + ((wdayOf n - 1 : Nat) : Int) := by
   unfold weekStart wdayOf; omega
 
 /-- every instance is a day the week loop looks at, in a month of BYMONTH, with a time of the enumeration -/
 theorem wly_inst_conv (r : Rule) (p : Inst) (nti : Nat) (hr : WfRule r) (hp : WfInst p) (hs : SeedOk r p)
     (hy2 : p.y ≤ 2099) {y0 m0 d0 : Nat} (hv0 : VD y0 m0 d0) (hl0 : LowOk y0 m0) (hy0 : y0 ≤ 2099)
-    (hback : Carry y0 m0 (d0 + wlyBack r p) p.y p.m p.d) (x : Inst) (hx : WeeklyInst r p x) (hxy : x.y ≤ 2099) :
+    (hback : Carry y0 m0 (d0 + wlyBack r p) p.y p.m p.d) (x : Inst) (hx : WeeklyInst r p x)
+    (hxy : x.y * 12 + x.m ≤ 25201) :
     ∃ k o, o ∈ offs 8 (wlyIncs r) 0 ∧ Carry y0 m0 (d0 + k * wk (mkCtx r p nti (wlyIncs r)) + o) x.y x.m x.d ∧
-      bit (monMask r.mon) x.m = true ∧ ∃ ix, (ix, x.H, x.M, x.S) ∈ (makeEnum p r).timesIx := by
+      bit (monMask r.mon) x.m = true ∧
+      weekStart (dayOf x) = weekStart (dayOf p) + 7 * (k : Int) * (r.inter : Int) ∧ ∃ ix, (ix, x.H, x.M, x.S) ∈ (makeEnum p r).timesIx := by
   obtain ⟨⟨s1, s2, s3, s4, s5, s6⟩, ⟨k, hk⟩, hwd, hmon, hte⟩ := hx
   have hd0 := hv0.2.2.1
   have hd31 := hv0.d31
   have hm12 := hv0.2.1
   have hbase := wly_base hy2 hv0 hl0 hback
   have hxv : VDs x.y x.m x.d := ⟨s1, s2, s3, s4⟩
-  have hlt := days_lt_2100 hxv hxy
-  rw [days_2100] at hlt
+  have hlt := days_lt_2100_2 hxv hxy
+  rw [days_2100_2] at hlt
+  have hk0 := hk
   have hge : 693960 ≤ days y0 m0 1 := by
     unfold LowOk at hl0
     rcases hl0 with a | ⟨a, b⟩
@@ -126,10 +141,10 @@ theorem wly_inst_conv (r : Rule) (p : Inst) (nti : Nat) (hr : WfRule r) (hp : Wf
   have hD : 1 ≤ d0 + k * wk (mkCtx r p nti (wlyIncs r)) + o := by omega
   obtain ⟨y2, m2, d2, -, hc⟩ := carryMon_spec (d0 + k * wk (mkCtx r p nti (wlyIncs r)) + o + 1) y0 m0
     (d0 + k * wk (mkCtx r p nti (wlyIncs r)) + o) hv0.1 hv0.2.1 (by omega) (by unfold pot; omega)
-  obtain ⟨e1, e2, e3⟩ := carry_of_days hc x.y x.m x.d hxv hxy hv0.1 hv0.2.1 hD hl0
+  obtain ⟨e1, e2, e3⟩ := carry_of_days' hc x.y x.m x.d hxv hxy hv0.1 hv0.2.1 hD hl0
     (by rw [hday, Int.natCast_add, Int.natCast_add, hcast]; omega)
   subst e1 e2 e3
-  refine ⟨k, o, ho, hc, (monMask_bit r.mon hr.mon.2 _ s1 s2).2 hmon, ?_⟩
+  refine ⟨k, o, ho, hc, (monMask_bit r.mon hr.mon.2 _ s1 s2).2 hmon, hk0, ?_⟩
   obtain ⟨a, b, c⟩ := enum_of_exp hp hs s6 hte
   obtain ⟨iH, aH⟩ := mem_getElem? a
   obtain ⟨iM, aM⟩ := mem_getElem? b
